@@ -265,3 +265,11 @@ def run(cx):
             ok = ok and ((last_t and match('(call *dir_of_edge (param self) (sub (param index) 1))', dv) is not None) or
                          (last_f and match('(call *dir_of_edge (param self) (param index))', dv) is not None))
         cx.ob('GUARD', 'Curve3::dir_of_vertex', ok, 'the last vertex uses the last edge, every other vertex its outgoing edge', where=b.file)
+
+
+def run_thorough(cx):
+    """thorough tier: the generic evaluators this property relies on must fire on their positive fixture twins"""
+    from rules import fixture_check as FX
+    FX.enc(cx)
+    from vpa import witness as W
+    W.check(cx, ['C01LengthsImmutable', 'C01LengthsPrivate', 'C01Lengths3Private'])
